@@ -77,6 +77,8 @@ type isoObs struct {
 	Opt3     bool
 	ErrText  string
 	Pos      []cmpb.Pos
+	NErr     int
+	AllPos   bool
 }
 
 func observeIso(content map[string]string) isoObs {
@@ -92,6 +94,13 @@ func observeIso(content map[string]string) isoObs {
 	case c.Err != nil:
 		o.ErrText = c.Err.Error()
 		o.Pos = cmpb.Positions(c.Err)
+		o.NErr = len(o.Pos)
+		o.AllPos = true
+		for _, p := range o.Pos {
+			if posProblem(p, content, mainFile) != "" {
+				o.AllPos = false
+			}
+		}
 		switch {
 		case strings.Contains(o.ErrText, "convertJ5File"):
 			o.Verdict = "VConvErr"
@@ -208,7 +217,7 @@ func runC07(cfg *vh.Config) error {
 				corpus = append(corpus, content)
 			}
 		}
-		cf.Terms = append(cf.Terms, fmt.Sprintf("CIso %s %q %s %s %s %q %s %s", p.Coq(), refFilePath, o.Verdict, coqStrList(o.Imports), coqStrList(o.Exts), o.PType, b(o.Repeated), b(o.Opt3)))
+		cf.Terms = append(cf.Terms, fmt.Sprintf("CIso %s %q %s %s %s %q %s %s %d%%nat %s", p.Coq(), refFilePath, o.Verdict, coqStrList(o.Imports), coqStrList(o.Exts), o.PType, b(o.Repeated), b(o.Opt3), o.NErr, b(o.AllPos)))
 		res.Cases = append(res.Cases, vh.CaseRec{Case: caseNo, Stream: "iso", Input: in, Impl: o})
 		if lang && o.Verdict == "VOk" && (p.Shape.Item.Rules || p.Shape.Item.LRules) {
 			res.Sample(map[string]any{"stream": "iso", "source": content[mainFile], "imports": o.Imports, "field_extensions": o.Exts}, 3)
